@@ -444,7 +444,11 @@ func (*c27Engine) Generate(seed uint64, tier string) *Case {
 			})
 		}
 		var script []string
-		switch r.Intn(13) {
+		switch r.Intn(14) {
+		case 13:
+			// the builtin library (the enhance! macro of Std::Kernel) is imported by the first input;
+			// when that input is rejected the import has to happen again
+			script = []string{invalid(), "mixin Sen\n  mixin Singleton\n    def ssing: Int\n      5\n    end\n  end\n  def sinst: Int\n    3\n  end\nend", "class Sec\n  enhance! Sen\nend", "println \"T:s20:${Sec.ssing + Sec().sinst}\""}
 		case 12:
 			// an alias of a method compiled by an earlier input, called dynamically
 			script = []string{"class Sqa\n  def who: Int\n    1\n  end\nend", "class Sqb < Sqa\n  def own: Int\n    2\n  end\nend", "class Sqa\n  alias aka who\nend", "def saka(x: Sqa): Int\n  x.aka\nend\nprintln \"T:s19:${saka(Sqb())} ${saka(Sqa())}\""}
